@@ -14,8 +14,9 @@ Truthfulness, encoder direction (token identity only):
 TE1 every atom symbol is reported with the attribution stored for the atom it prints
 TE2 the SMILES parser stores, for each atom, the text of the token the atom was parsed from
 TE3 the graph's attribution store returns what was filed under the same object; add_attribution is its only writer
-Not decided: the *position* numbers on the encoder side (the statement fixes no counting convention for SMILES tokens
-and the tree's own convention is irregular: 'C.O', 'C=1CCCCC=1O'), see DESIGN.md.
+TE4 whatever position scheme the SMILES parser uses, it treats all bond symbols of SMILES_BOND_ORDERS alike ('-' included)
+Not decided: the *position* numbers on the encoder side beyond TE4 (the statement fixes no counting convention for
+SMILES tokens and the tree's own convention is irregular: 'C.O', 'C=1CCCCC=1O'), see DESIGN.md.
 """
 import ast
 
@@ -129,7 +130,8 @@ def truthfulness(ctx, rep):
     attrib.check_encoder_tokens(ctx, rep, "TE1")
     attrib.check_parser_attribution(ctx, rep, "TE2")
     attrib.check_graph_store(ctx, rep, "TE3")
-    for rule, fl in (("TI1", 1), ("TI2", 2), ("TI3", 3), ("TI4", 3), ("TC1", 3), ("TO1", 1), ("TO2", 1), ("TE1", 2), ("TE2", 1), ("TE3", 3)):
+    attrib.check_parser_positions(ctx, rep, "TE4")
+    for rule, fl in (("TI1", 1), ("TI2", 2), ("TI3", 3), ("TI4", 3), ("TC1", 3), ("TO1", 1), ("TO2", 1), ("TE1", 2), ("TE2", 1), ("TE3", 3), ("TE4", 1)):
         rep.floor(rule, fl)
     rep.analysed.update({"derivation": roles["D"].qual, "index_reader": roles["index_reader"].qual, "writer": wr["W"].qual,
                          "attribution_constructions_checked": n_attr})
